@@ -52,3 +52,30 @@ package client
 //@ func (*Broker).startValidate
 //@   before call (*Broker).finish assert finish-only-with-verdict: arg1.NotFound() ==> has(poll, arg1.GetName()) && poll[arg1.GetName()].polled == broker.Conf.PollAttempts
 //@   before call (*Broker).finish assert finish-answers-of-this-poll: called(Validator) && lastret(Validator, 1) == nil
+
+// ---------------------------------------------------------------- sender start-up recovery (C07 C02)
+
+// T (stated at the call): sort.Sort with chunks.Less yields the same ranges ordered by Beg
+//@ func (*Broker).recover
+//@   track store send
+//@   before call (*Broker).finish assert finish-needs-positive: arg1.Waiting() || arg1.Received()
+//@   before call (*Broker).finish assert finish-answers-of-this-poll: called(Validator) && lastret(Validator, 1) == nil && arg1 == f
+//@   before store send assert notfound-is-requeued-whole: called(Validator) ==> (f.NotFound() ==> arg0[len(arg0)-1] == cached)
+//@   before store send assert failed-is-resent-whole: called(Validator) ==> (!f.NotFound() && f.Failed() ==> arg0[len(arg0)-1] == cached || (typeis(arg0[len(arg0)-1], *recoverFile) && len(as(arg0[len(arg0)-1], *recoverFile).left) == 1 && as(arg0[len(arg0)-1], *recoverFile).left[0].Beg == 0 && as(arg0[len(arg0)-1], *recoverFile).left[0].End == cached.GetSize() && as(arg0[len(arg0)-1], *recoverFile).Cached == cached))
+//@   before call sts.SendLogger.Sent assert sent-logged-once: called(sts.SendLogger.WasSent) && !lastret(sts.SendLogger.WasSent, 0) && (f.Waiting() || f.Received())
+
+// the arithmetic of the Iterate callback of recover is proved on the closure itself (short context):
+// the ranges queued for a resumed file are exactly the complement of the reported ranges in [0, size)
+//@ func (*Broker).recover$1
+//@   track store send
+//@   after call sort.Sort assume reported-ranges-sorted: forall(i, 0, len(parts), parts[i] != nil && 0 <= parts[i].Beg && parts[i].Beg < parts[i].End && parts[i].End <= f.GetSize()) && forall(i, 0, len(parts), forall(j, i, len(parts), parts[i].Beg <= parts[j].Beg))
+//@   loop 0 invariant -1 <= rangeindex && rangeindex < len(parts) && 0 <= beg && (beg == 0 || beg <= f.GetSize())
+//@   loop 0 invariant frame-reported-ranges: !samearray(missing, parts) && forall(k, 0, len(parts), parts[k] == entry(parts[k]) && parts[k].Beg == entry(parts[k].Beg) && parts[k].End == entry(parts[k].End))
+//@   loop 0 invariant processed-below-cursor: forall(k, 0, rangeindex+1, parts[k].End <= beg)
+//@   loop 0 invariant missing-wellformed: forall(m, 0, len(missing), missing[m] != nil && 0 <= missing[m].Beg && missing[m].Beg < missing[m].End && missing[m].End <= beg)
+//@   loop 0 invariant only-missing: forall(m, 0, len(missing), forall(k, 0, len(parts), missing[m].End <= parts[k].Beg || parts[k].End <= missing[m].Beg))
+//@   loop 0 invariant nothing-forgotten: forall(x, 0, beg, exists(k, 0, rangeindex+1, parts[k].Beg <= x && x < parts[k].End) || exists(m, 0, len(missing), missing[m].Beg <= x && x < missing[m].End))
+//@   before store send assert resumed-ranges-wellformed: forall(m, 0, len(missing), missing[m] != nil && 0 <= missing[m].Beg && missing[m].Beg < missing[m].End && missing[m].End <= f.GetSize())
+//@   before store send assert resumed-only-missing: forall(m, 0, len(missing), forall(k, 0, len(parts), missing[m].End <= parts[k].Beg || parts[k].End <= missing[m].Beg))
+//@   before store send assert resumed-nothing-forgotten: forall(x, 0, f.GetSize(), exists(k, 0, len(parts), parts[k].Beg <= x && x < parts[k].End) || exists(m, 0, len(missing), missing[m].Beg <= x && x < missing[m].End))
+//@   before store send assert resumed-carries-ranges: typeis(arg0[len(arg0)-1], *recoverFile) && as(arg0[len(arg0)-1], *recoverFile).left == missing && as(arg0[len(arg0)-1], *recoverFile).Cached == f && as(arg0[len(arg0)-1], *recoverFile).prev == partial.Prev
